@@ -11,6 +11,7 @@
 #         [:s "dec"]   (int/s64 "dec")        [:u "dec"]   (int/u64 "dec")
 #         [:t "text"]  the string itself      [:k int]     literal integer (route :k only)
 # out   = n<16 hex digits> | s<dec> | u<dec> | true | false | nil | ?<type>    or   E <message>
+#         X <text>  an in-range decimal string could not be boxed (operand construction failed)
 #
 # Errors are caught here so that one process handles thousands of cases; a crash
 # (signal) is attributed to the item by the batch runner.
@@ -50,11 +51,17 @@
         (put inl-cache key f)
         f)))
 
+(defn- box [f a]
+  # the decimal strings sent by the check are always in range: a failure here is a defect of the
+  # string conversion itself, reported as outcome "X ..." (not a harness error)
+  (try (f (in a 1))
+    ([e] (error [:operand (string (in a 0) " " (in a 1) ": " e)]))))
+
 (defn mk [a]
   (case (in a 0)
     :n (verif/bits-to-double (in a 1) (in a 2))
-    :s (int/s64 (in a 1))
-    :u (int/u64 (in a 1))
+    :s (box int/s64 a)
+    :u (box int/u64 a)
     :t (in a 1)
     (error "bad arg descriptor")))
 
@@ -95,8 +102,13 @@
   (fn [item]
     # building the operands is outside the protected region: a failure there is a
     # harness problem (status ERR), never an outcome ("E ...", status OK)
-    (def thunk (prepare item))
-    (def r (protect (thunk)))
-    (if (in r 0)
-      (render (in r 1))
-      (string "E " (string/replace-all "\n" " " (string (in r 1)))))))
+    (def p (protect (prepare item)))
+    (if (in p 0)
+      (let [r (protect ((in p 1)))]
+        (if (in r 0)
+          (render (in r 1))
+          (string "E " (string/replace-all "\n" " " (string (in r 1))))))
+      (let [e (in p 1)]
+        (if (and (tuple? e) (= :operand (get e 0)))
+          (string "X " (in e 1))
+          (error e))))))
